@@ -240,5 +240,56 @@ fn adjust_capacity_for_holder_reserved_fee(
     }
 	core::cmp::min(available_capacity_on_local_commitment, available_capacity_on_remote_commitment)
 }
+// (P) fundee case: the check the counterparty (funder) must pass on one commitment for our outbound HTLC of `a` msat
+pub open spec fn cp_affordable(a: int, rbal: int, fr: int, n: int, d: int, hres: int, ct: &ChannelTypeFeatures) -> bool {
+    a / 1000 >= d ==> rbal >= commit_fee_spec(fr, n + 1, ct) * 1000 + hres * 1000
+}
+fn adjust_capacity_for_counterparty_reserved_fee(
+	outbound_capacity_msat: u64, remote_balance_before_fee_msat: u64,
+	local_nondust_htlc_count: usize, remote_nondust_htlc_count: usize, feerate_per_kw: u32,
+	channel_constraints: &ChannelConstraints, channel_type: &ChannelTypeFeatures,
+) -> (r: u64)
+    requires local_nondust_htlc_count <= 2000, remote_nondust_htlc_count <= 2000,
+        1 <= channel_constraints.holder_dust_limit_satoshis <= 21_000_000_0000_0000, 1 <= channel_constraints.counterparty_dust_limit_satoshis <= 21_000_000_0000_0000,
+        channel_constraints.holder_selected_channel_reserve_satoshis <= 21_000_000_0000_0000,
+    ensures
+        r <= outbound_capacity_msat,
+        // (P) any non-dust amount up to the limit leaves the funder able to pay the fee for it above the reserve we require of them
+        forall|a: int| 1 <= a <= r ==>
+            #[trigger] cp_affordable(a, remote_balance_before_fee_msat as int, feerate_per_kw as int, local_nondust_htlc_count as int,
+                channel_constraints.holder_dust_limit_satoshis + second_stage_spec(channel_type, feerate_per_kw as int).1, channel_constraints.holder_selected_channel_reserve_satoshis as int, channel_type)
+            && cp_affordable(a, remote_balance_before_fee_msat as int, feerate_per_kw as int, remote_nondust_htlc_count as int,
+                channel_constraints.counterparty_dust_limit_satoshis + second_stage_spec(channel_type, feerate_per_kw as int).0, channel_constraints.holder_selected_channel_reserve_satoshis as int, channel_type),
+{
+	let read_available_capacity = |nondust_htlc_count: usize, htlc_dust_limit_sat: u64| -> (o: u64)
+        requires nondust_htlc_count <= 2000, 1 <= htlc_dust_limit_sat <= 21_000_000_0000_0000 + 0xffff_ffff
+        ensures o <= outbound_capacity_msat,
+            remote_balance_before_fee_msat < commit_fee_spec(feerate_per_kw as int, nondust_htlc_count + 1, channel_type) * 1000 + channel_constraints.holder_selected_channel_reserve_satoshis * 1000
+                ==> o <= htlc_dust_limit_sat * 1000 - 1,
+    {
+		let commit_tx_fee_sat =
+			commit_tx_fee_sat(feerate_per_kw, nondust_htlc_count + 1, channel_type);
+		if remote_balance_before_fee_msat
+			< commit_tx_fee_sat * 1000
+				+ channel_constraints.holder_selected_channel_reserve_satoshis * 1000
+		{
+			core::cmp::min(outbound_capacity_msat, htlc_dust_limit_sat * 1000 - 1)
+		} else {
+			outbound_capacity_msat
+		}
+	};
+	let (real_htlc_success_tx_fee_sat, real_htlc_timeout_tx_fee_sat) =
+		second_stage_tx_fees_sat(channel_type, feerate_per_kw);
+	let available_capacity_on_local_commitment = read_available_capacity(
+		local_nondust_htlc_count,
+		channel_constraints.holder_dust_limit_satoshis + real_htlc_timeout_tx_fee_sat,
+	);
+	let available_capacity_on_remote_commitment = read_available_capacity(
+		remote_nondust_htlc_count,
+		channel_constraints.counterparty_dust_limit_satoshis + real_htlc_success_tx_fee_sat,
+	);
+	core::cmp::min(available_capacity_on_local_commitment, available_capacity_on_remote_commitment)
+}
+
 }
 fn main() {}
